@@ -90,7 +90,8 @@ fn one(id: u64, v: &Value, bash: &PathBuf) -> Value {
         config.output_stream = Some(stream.clone());
         if let Some(b) = tri("keep") { config.keep_crlf = Some(b); }
         if let Some(b) = tri("strip") { config.strip_ansi_escaping = Some(b); }
-        let expr = cmds.join("; ");
+        let mut expr = cmds.join("; ");
+        if t["tail"] == json!("backslash") { expr.push_str(" \\"); }
         commands.push(expr.clone());
         tcs.push(TestCase { title: format!("t{}", k + 1), shell_expression: expr, expectations: vec![], exit_code: None, line_number: k + 1, config });
     }
